@@ -531,6 +531,72 @@ def shard_answers(ctx: Ctx) -> None:
             if o2[0] == "ok":
                 ctx.violation(f"tampered-signer-answer-accepted:request_signatures:{tag}", f"request_signatures returned a device answer with {tag}", c2)
             ctx.case(f"answer:{tag}", (ser(req), ser(tampered)))
+
+        # ---- a request that already carries a *finalized* input (a wallet that signed and finalized its own input before
+        # handing the psbt on): the answer may touch that input no more than any other
+        if len(shapes) < 2:
+            continue
+        try:
+            full = g.build(shapes)
+            g.sign(full, "software")
+            g.finish(full)
+        except Exception as e:  # noqa: BLE001
+            if not is_lib_exc(e):
+                ctx.violation(f"flow:foreign-exception:{type(e).__name__}@{tb_origin(e)}", f"{shapes}: {e!r}", {"shapes": shapes})
+            ctx.stat("flow-refused")
+            continue
+        kfin = r.randrange(len(shapes))
+        req2 = deepcopy(full.created)
+        req2.inputs[kfin] = deepcopy(full.finalized.inputs[kfin])
+        signer2 = SoftwareSigner(full.roots[it % 3])
+        ao = outcome(request_signatures, signer2, req2)
+        case2 = {"shapes": shapes, "finalized_input": kfin, "psbt_version": full.psbt_version, "request": outcome(lambda: ser(req2).hex()[:3000])[1]}
+        if ao[0] == "raise":
+            if not is_lib_exc(ao[1]):
+                ctx.violation(f"answers:foreign-exception:{type(ao[1]).__name__}@{tb_origin(ao[1])}", f"request with a finalized input: {ao[1]!r}", case2)
+            ctx.stat("answer:partly-finalized-request-refused")
+            continue
+        ans2 = ao[1]
+        ctx.stats["answer:partly-finalized-request"] += 1
+
+        def tampers2():
+            a = deepcopy(ans2)
+            pin = a.inputs[kfin]
+            if pin.final_script_witness is not None and getattr(pin.final_script_witness, "stack", None):
+                from btclib.script import Witness
+                pin.final_script_witness = Witness([*pin.final_script_witness.stack[:-1], bytes(pin.final_script_witness.stack[-1]) + b"\x00"])
+                yield "finalized-input:final-witness-replaced", a
+            a = deepcopy(ans2)
+            if a.inputs[kfin].final_script_sig:
+                a.inputs[kfin].final_script_sig = bytes(a.inputs[kfin].final_script_sig) + b"\x61"
+                yield "finalized-input:final-script-sig-replaced", a
+            a = deepcopy(ans2)
+            if a.inputs[kfin].witness_utxo is not None:
+                w = a.inputs[kfin].witness_utxo
+                a.inputs[kfin].witness_utxo = TxOut(w.value + 1, w.script_pub_key)
+                yield "finalized-input:witness-utxo-amount-changed", a
+            a = deepcopy(ans2)
+            a.inputs[kfin].unknown[b"\xfc\x01x"] = b"added"
+            yield "finalized-input:unknown-added", a
+            a = deepcopy(ans2)
+            a.inputs[kfin].sha256_preimages[bytes(32)] = b"p"
+            yield "finalized-input:preimage-added", a
+
+        for tag, tampered in tampers2():
+            so = outcome(ser, tampered)
+            if so[0] == "raise" or so[1] == ser(ans2):
+                continue
+            o = outcome(assert_signatures_only, req2, tampered)
+            c2 = {**case2, "tampering": tag, "tampered": so[1].hex()[:3000]}
+            ctx.mon("dishonest-answer")
+            if o[0] == "ok":
+                ctx.violation(f"tampered-signer-answer-accepted:{tag}", f"assert_signatures_only accepted an answer with {tag}", c2)
+            elif not is_lib_exc(o[1]):
+                ctx.violation(f"answers:foreign-exception:{type(o[1]).__name__}@{tb_origin(o[1])}", f"{tag}: {o[1]!r}", c2)
+            else:
+                ctx.stats["answer:tampered-refused"] += 1
+                ctx.stats[f"tamper:{tag}"] += 1
+            ctx.case(f"answer:{tag}", (ser(req2), so[1]))
     reach.stop()
     reach.report(ctx)
 
